@@ -69,6 +69,8 @@ class GhostFS:
         S(r'^<WalkDir as IntoIterator>::into_iter$',self.walk,'walkdir::WalkDir::into_iter [ghost file system: directories before their entries, entries in name order]')
         S(r'^<walkdir::IntoIter as Iterator>::next$',self.next,'walkdir::IntoIter::next')
         S(r'^walkdir::IntoIter::skip_current_dir$',self.skip_current_dir,'walkdir::IntoIter::skip_current_dir [ghost: drops the rest of the directory the walk is in]')
+        S(r'^walkdir::Error::loop_ancestor$',lambda e,run,a,f: some(Ref(Cell(Agg('Path',[mk_string('<ancestor>')])))) if deref(a[0]).p['loop'] else none(),'walkdir::Error::loop_ancestor')
+        S(r'^walkdir::Error::path$',lambda e,run,a,f: some(Ref(Cell(Agg('Path',[mk_string(deref(a[0]).p['path'])])))),'walkdir::Error::path')
         S(r'^(std::fs::)?canonicalize$',self.canonicalize,'std::fs::canonicalize [ghost file system: absolute, links resolved]')
         S(r'^walkdir::DirEntry::path$',lambda e,run,a,f: Ref(Cell(Agg('Path',[mk_string(deref(a[0]).p)]))),'walkdir::DirEntry::path')
         S(r'^(std::fs::)?symlink_metadata$',self.meta,'std::fs::symlink_metadata [ghost file system; does not follow links]')
@@ -88,67 +90,112 @@ class GhostFS:
         S(r'^<(std::time::)?SystemTime as (std::cmp::)?PartialEq>::(eq|ne)$',self.time_eq,'SystemTime == SystemTime')
         S(r'^BufReader::new$',lambda e,run,a,f: a[0],'std::io::BufReader::new')
         S(r' as (std::io::)?Read>::read$',self.read,'std::io::Read::read [nondeterministic chunking of the ghost file content]')
-    def resolve(self,run,p):
-        """follow symbolic links the way the kernel does: a relative target is relative to the directory holding the link"""
+    # ---- the ghost file system proper: regular files run.ghost['fs'] {path: bytes}, symbolic links run.ghost['links'] {path: target}
+    # (a target may name a file or a DIRECTORY, relative to the directory holding the link or absolute "@ROOT/.."); directories
+    # exist implicitly.  All paths are relative to the ghost root.
+    def phys(self,run,p,follow_last=True,depth=0):
+        """kernel path resolution: the physical path p leads to (no `.`, `..`, links) or None (dangling, loop, not a directory)"""
+        if depth>12: return None
         links=run.ghost.get('links',{})
-        for _ in range(8):
-            if p.startswith('@ROOT/'): p=p[len('@ROOT/'):]
-            if p not in links: return p
-            t=links[p]
-            if t.startswith('@ROOT/'): p=t
-            else:
-                import posixpath
-                p=posixpath.normpath(posixpath.join(posixpath.dirname(p),t))
+        if p.startswith('@ROOT/'): p=p[len('@ROOT/'):]
+        comps=[c for c in p.split('/') if c not in ('','.')]
+        cur=[]
+        for i,c in enumerate(comps):
+            if c=='..':
+                if cur: cur.pop()
+                continue
+            cand='/'.join(cur+[c]); last=(i==len(comps)-1)
+            if cand in links and (follow_last or not last):
+                t=links[cand]
+                tp=t if t.startswith('@ROOT/') else '@ROOT/'+'/'.join(cur+[t])
+                r=self.phys(run,tp,True,depth+1)
+                if r is None: return None
+                cur=[x for x in r.split('/') if x]
+            else: cur=cur+[c]
+            if not last and self.kind_phys(run,'/'.join(cur))!='dir': return None
+        return '/'.join(cur)
+    def kind_phys(self,run,p):
+        if p=='': return 'dir'
+        if p in run.ghost.get('links',{}): return 'symlink'
+        if p in run.ghost['fs']: return 'file'
+        pre=p+'/'
+        if any(q.startswith(pre) for q in run.ghost['fs']) or any(q.startswith(pre) for q in run.ghost.get('links',{})): return 'dir'
         return None
+    def children(self,run,pd):
+        pre=pd+'/' if pd else ''
+        return sorted({q[len(pre):].split('/')[0] for q in list(run.ghost['fs'])+list(run.ghost.get('links',{})) if q.startswith(pre) and q!=pd})
+    def enumerate(self,run,root):
+        """walkdir with follow_links(true) from `root`: [('ok'|'loop'|'ioerr', path as reported)], directories before their entries,
+        entries in name order; a link to a directory that is an ancestor in the current descent is reported as a loop error"""
+        links=run.ghost.get('links',{}); ents=[]
+        def visit(path,pd,stack):
+            for name in self.children(run,pd):
+                child=(path.rstrip('/')+'/'+name) if path not in ('','.') else (name if path=='' else './'+name)
+                cp=(pd+'/'+name) if pd else name
+                if cp in links:
+                    tgt=self.phys(run,cp,True)
+                    if tgt is None or self.kind_phys(run,tgt) is None: ents.append(('ioerr',child)); continue      # dangling: walkdir (following) reports an I/O error
+                    if self.kind_phys(run,tgt)=='dir':
+                        if tgt in stack: ents.append(('loop',child)); continue
+                        ents.append(('ok',child)); visit(child,tgt,stack+[tgt])
+                    else: ents.append(('ok',child))
+                elif self.kind_phys(run,cp)=='dir': ents.append(('ok',child)); visit(child,cp,stack+[cp])
+                else: ents.append(('ok',child))
+        rp=self.phys(run,root,True)
+        k=None if rp is None else self.kind_phys(run,rp)
+        if k is None: return [('ioerr',root)]
+        ents.append(('ok',root))
+        if k=='dir': visit(root,rp,[rp])
+        return ents
     def walk(self,e,run,a,f):
-        root=deref(a[0]).p; fs=dict(run.ghost['fs']); fs.update({p:None for p in run.ghost.get('links',{})})
-        ents=set()
-        for p in fs:
-            if p==root or p.startswith(root.rstrip('/')+'/'):
-                parts=p.split('/')
-                for i in range(len(root.split('/')),len(parts)+1): ents.add('/'.join(parts[:i]))
-        ents.add(root)
-        return Opaque('WalkIter',{'ents':sorted(ents),'i':0})
+        return Opaque('WalkIter',{'ents':self.enumerate(run,deref(a[0]).p),'i':0})
     def next(self,e,run,a,f):
         it=deref(a[0]).p
         if it['i']>=len(it['ents']): return none()
-        p=it['ents'][it['i']]; it['i']+=1
-        return some(ok(Opaque('DirEntry',p)))
+        k,p=it['ents'][it['i']]; it['i']+=1
+        if k=='ok': return some(ok(Opaque('DirEntry',p)))
+        return some(err(Opaque('walkdir::Error',{'loop':k=='loop','path':p})))
     def skip_current_dir(self,e,run,a,f):
         # walkdir: "skips the current directory": if the last yielded entry is a directory its contents are skipped, otherwise
         # the remaining entries of the directory that entry lives in
         it=deref(a[0]).p
         if it['i']==0: return UNIT
-        last=it['ents'][it['i']-1]
-        is_dir=any(x.startswith(last+'/') for x in it['ents'])
+        last=it['ents'][it['i']-1][1]
+        is_dir=any(x[1].startswith(last+'/') for x in it['ents'])
         pre=(last if is_dir else last.rsplit('/',1)[0] if '/' in last else '')+'/'
-        while it['i']<len(it['ents']) and it['ents'][it['i']].startswith(pre): it['i']+=1
+        while it['i']<len(it['ents']) and it['ents'][it['i']][1].startswith(pre): it['i']+=1
         return UNIT
+    def resolve(self,run,p): return self.phys(run,p,True)
     def canonicalize(self,e,run,a,f):
-        p=self.resolve(run,need_conc(pb_bytes(a[0]),'canonicalize path').decode())
-        if p is None or self.kind(run,p) is None: return err(Opaque('io::Error','not found'))
+        p=self.phys(run,need_conc(pb_bytes(a[0]),'canonicalize path').decode(),True)
+        if p is None or self.kind_phys(run,p) is None: return err(Opaque('io::Error','not found'))
         return ok(Agg('PathBuf',[mk_string('/ghost-root/'+p)]))
     def kind(self,run,p):
-        fs=run.ghost['fs']
-        if p.startswith('@ROOT/'): p=p[len('@ROOT/'):]
-        if p in run.ghost.get('links',{}): return 'symlink'
-        if p in fs: return 'file'
-        if any(q.startswith(p.rstrip('/')+'/') for q in fs): return 'dir'
-        return None
+        pp=self.phys(run,p,False)
+        return None if pp is None else self.kind_phys(run,pp)
     def size(self,run,p,k):
-        if p.startswith('@ROOT/'): p=p[len('@ROOT/'):]
         if k=='symlink': return len(run.ghost['links'][p].replace('@ROOT/','/tmp/verif-root/').encode())
         if k=='file': return len(run.ghost['fs'][p])
         return 4096
     def meta(self,e,run,a,f):
-        p=need_conc(pb_bytes(a[0]),'metadata path').decode(); k=self.kind(run,p)
+        pp=self.phys(run,need_conc(pb_bytes(a[0]),'metadata path').decode(),False)
+        k=None if pp is None else self.kind_phys(run,pp)
         if k is None: return err(Opaque('io::Error','not found'))
-        return ok(Opaque('Metadata',(k,self.size(run,p,k),p)))
+        return ok(Opaque('Metadata',(k,self.size(run,pp,k),pp)))
     def meta_follow(self,e,run,a,f):
-        p=self.resolve(run,need_conc(pb_bytes(a[0]),'metadata path').decode())
-        k=self.kind(run,p) if p is not None else None
+        pp=self.phys(run,need_conc(pb_bytes(a[0]),'metadata path').decode(),True)
+        k=None if pp is None else self.kind_phys(run,pp)
         if k is None: return err(Opaque('io::Error','not found'))
-        return ok(Opaque('Metadata',(k,self.size(run,p,k),p)))
+        return ok(Opaque('Metadata',(k,self.size(run,pp,k),pp)))
+    def read_link(self,e,run,a,f):
+        pp=self.phys(run,need_conc(pb_bytes(a[0]),'read_link path').decode(),False)
+        if pp is None or pp not in run.ghost.get('links',{}): return err(Opaque('io::Error','not a link'))
+        return ok(Agg('PathBuf',[mk_string(run.ghost['links'][pp])]))
+    def open(self,e,run,a,f):
+        pp=self.phys(run,need_conc(pb_bytes(a[0]),'open path').decode(),True)
+        if pp is None or self.kind_phys(run,pp)!='file': return err(Opaque('io::Error','not found'))
+        run.ghost['opened'].append(pp)
+        return ok(Ref(Cell(Opaque('File',{'path':pp,'pos':0,'reads':0}))))
     def file_meta(self,e,run,a,f):
         fo=deref(a[0]); p=fo.p['path']
         return ok(Opaque('Metadata',('file',len(run.ghost['fs'][p]),p)))
@@ -196,7 +243,7 @@ class Record(Obligation):
         self.seed=seed; self.flen=flen; self.nlinks=nlinks
         self.bounds={'ghost file system':'files r/left/w, r/right/w (optionally r/left/x or r/r/w) with 0..%d free content bytes each'%flen,'path arguments':'[r], [r/left, r/right] or [r/left] (non-overlapping)',
                      'strip prefixes':'none; [r/]; [r/left/, r/right/] (keys collide); [r/, r/left/] (longest wins)','hash algorithms':'default, [sha256], [sha256, sha512], [md5] (unknown)',
-                     'read schedule':'every split of each file into non-empty chunks; optionally one failing read','symbolic links':'none, or one link to a file: relative target in the same directory, absolute target, relative target through .., a chain of two links, or two links to the same file (links to directories and link cycles are outside the claim)'}
+                     'read schedule':'every split of each file into non-empty chunks; optionally one failing read','symbolic links':'none, or one link to a file: relative target in the same directory, absolute target, relative target through .., a chain of two links, or two links to the same file (links to directories and cycles: record_artifacts_linked_directories)'}
         self.witnesses=['recorded','duplicate_key_error','unknown_algorithm_error','io_error']; self.seen=set()
     def setup(self,eng,tier):
         self.eng=eng; self.b=B(eng); self.fs=GhostFS(eng,self.b); self.fn=eng.find_fn('record_artifacts')
@@ -223,28 +270,29 @@ class Record(Obligation):
         mk=lambda l: Ref(Cell(VecO([mk_str(x) for x in l])))
         args=[mk(paths),none() if algs is None else some(mk(algs)),none() if strips is None else some(mk(strips))]
         return args,{'fs':fs,'links':links,'paths':paths,'strips':strips,'algs':algs}
-    def target_of(self,g,p):
-        import posixpath
-        for _ in range(8):
-            if p not in g['links']: return p
-            t=g['links'][p]
-            p=t[len('@ROOT/'):] if t.startswith('@ROOT/') else posixpath.normpath(posixpath.join(posixpath.dirname(p),t))
-    def expected(self,g):
-        # every regular file reachable under the path arguments: files, and symbolic links that lead to a file (recorded under the link's own path)
-        files=[p for p in sorted(list(g['fs'])+list(g['links'])) if any(p==r or p.startswith(r+'/') for r in g['paths'])]
+    def expected(self,run,g):
+        """the specification side: every regular file reachable under the NORMALISED path arguments (through links to files and to
+        directories; a link back to a directory on the way down ends that branch), keyed by its normalised path minus the longest
+        strip prefix.  The walk itself (walkdir) is a dependency: its ghost model enumerates the entries."""
+        files=[]
+        for arg in g['paths']:
+            for k,pth in self.fs.enumerate(run,path_clean(arg)):
+                if k!='ok': continue
+                cp=path_clean(pth); pp=self.fs.phys(run,cp,True)
+                if pp is not None and self.fs.kind_phys(run,pp)=='file': files.append((cp,pp))
         keys={}
-        for p in files:
+        for cp,pp in files:
             best=''
             for q in (g['strips'] or []):
-                if p.startswith(q) and len(q)>len(best): best=q
-            keys.setdefault(p[len(best):],[]).append(p)
-        return files,keys
+                if cp.startswith(q) and len(q)>len(best): best=q
+            keys.setdefault(cp[len(best):],[]).append(pp)
+        return [cp for cp,_ in files],keys
     def check(self,run,out,g):
         oc=outcome_of(out); rec={'outcome':oc,'viol':None,'wit':[],'sample':None,'obl':1}
         def scn(m): return {'kind':'record','fs':{p:[model_value(m,x) for x in c] for p,c in g['fs'].items()},'links':g['links'],'paths':g['paths'],'strips':g['strips'],'algs':g['algs']}
         def W(n):
             if n not in self.seen: self.seen.add(n); rec['wit'].append(n)
-        files,keys=self.expected(g)
+        files,keys=self.expected(run,g)
         dup=any(len(v)>1 for v in keys.values()); unknown=g['algs']==['md5']
         ioerr=run.ghost['io_error_at'] is not None and run.ghost['io_error_at'][0] in files and any(True for _ in [0])
         r0,m0=run.check_sat(z3.BoolVal(True))
@@ -261,7 +309,7 @@ class Record(Obligation):
                 rec['viol']={'kind':'wrong_key_set','known_key':None,'scenario':scn(m0),'predicted':{'not':'keys:'+','.join(sorted(keys))},'what':'recorded keys %s differ from the expected %s'%(sorted(got),sorted(keys))}; return rec
             algs=g['algs'] or ['sha256']
             for key,ps in keys.items():
-                desc=deref(got[key]); content=g['fs'][self.target_of(g,ps[0])]
+                desc=deref(got[key]); content=g['fs'][ps[0]]
                 if len(desc.e)!=len(algs):
                     rec['viol']={'kind':'wrong_algorithm_set','known_key':None,'scenario':scn(m0),'predicted':'ok','what':'digest entry count differs from the requested algorithms'}; return rec
                 for ak,hv in desc.e:
@@ -277,16 +325,57 @@ class Record(Obligation):
                     if r==z3.sat:
                         rec['viol']={'kind':'digest_of_other_bytes','confirm':{'digests_ok':False},'known_key':None,'scenario':scn(m),'predicted':'keys:'+','.join(sorted(got)),'what':'the digest recorded for %s was computed over bytes other than exactly the file content'%key}; return rec
             W('recorded')
-            if is_sample(run,self.seed,12): rec['sample']={'scenario':scn(m0),'expect':'keys:'+','.join(sorted(got)),'confirm':{'digests_ok':True}}
+            if is_sample(run,self.seed,getattr(self,'sample_rate',12)): rec['sample']={'scenario':scn(m0),'expect':'keys:'+','.join(sorted(got)),'confirm':{'digests_ok':True}}
         else:
             reason=None
             if unknown: reason='unknown_algorithm_error'
-            elif run.ghost['io_error_at'] and run.ghost['io_error_at'][0] in [self.target_of(g,p) for p in run.ghost['opened']]+run.ghost['opened']: reason='io_error'
+            elif run.ghost['io_error_at'] and run.ghost['io_error_at'][0] in run.ghost['opened']: reason='io_error'
             elif dup: reason='duplicate_key_error'
             if reason is None:
                 rec['viol']={'kind':'spurious_error','known_key':None,'scenario':scn(m0),'predicted':'err','what':'record_artifacts fails although all files are readable, keys are unique and the algorithms are known'}; return rec
             W(reason)
             if is_sample(run,self.seed,25) and reason!='io_error': rec['sample']={'scenario':scn(m0),'expect':'err'}
+        return rec
+
+class RecordLinkedDirectories(Record):
+    """record_artifacts on trees with symbolic links to DIRECTORIES (relative, through .., absolute, back to an ancestor = a cycle,
+    dangling) and on path arguments that are not normalised (./, a/../b, `..` right after a link to a directory)"""
+    def __init__(self,**kw):
+        Record.__init__(self,**kw); self.name='C18.record_artifacts_linked_directories'; self.sample_rate=1
+        self.bounds={'ghost file system':'files r/left/w, r/left/x, r/right/w with 0..1 free content bytes each','symbolic links':'one of: r/dl -> left; r/right/dl -> ../left; r/dl -> absolute r/left; r/left/up -> .. (cycle); r/left/loop -> . (cycle); r/dl -> left plus r/fl -> left/w; r/dangling -> nowhere',
+                     'path arguments':'[r], [r/right], [./r/right], [r/left/../right], [r/right/dl/..] (only with r/right/dl), [r/dl] (only with r/dl)','strip prefixes':'none; [r/]; [r/dl/] ','hash algorithms':'default','read schedule':'whole files',
+                     'walk':'the ghost model of walkdir with follow_links(true): entries in name order, directories before their entries, a link to an ancestor directory is reported as a loop error, a dangling link as an I/O error'}
+        self.witnesses=['recorded','error_returned']; self.seen=set()
+    def mk_args(self,run):
+        def content(name):
+            n=run.pick(2,'len_'+name); return [z3.BitVec('%s_%d'%(name,i),8) for i in range(n)]
+        fs={'r/left/w':content('lw'),'r/left/x':content('lx'),'r/right/w':content('rw')}
+        LINKS=[{'r/dl':'left'},{'r/right/dl':'../left'},{'r/dl':'@ROOT/r/left'},{'r/left/up':'..'},{'r/left/loop':'.'},{'r/dl':'left','r/fl':'left/w'},{'r/dangling':'nowhere'}]
+        links=LINKS[run.pick(len(LINKS),'link')]
+        PATHS=[['r'],['r/right'],['./r/right'],['r/left/../right'],['r/right/dl/..'],['r/dl']]
+        paths=PATHS[run.pick(len(PATHS),'paths')]
+        if paths==['r/right/dl/..'] and 'r/right/dl' not in links: raise Infeasible()
+        if paths==['r/dl'] and 'r/dl' not in links: raise Infeasible()
+        strips=[None,['r/'],['r/dl/']][run.pick(3,'strips')]
+        run.ghost.update({'fs':fs,'links':links,'opened':[],'digests':[],'io_error_at':None})
+        mk=lambda l: Ref(Cell(VecO([mk_str(x) for x in l])))
+        args=[mk(paths),none(),none() if strips is None else some(mk(strips))]
+        return args,{'fs':fs,'links':links,'paths':paths,'strips':strips,'algs':None}
+    def check(self,run,out,g):
+        oc=outcome_of(out)
+        # a dangling link below the walk root makes walkdir report an I/O error, which record_artifacts passes on: an error is then
+        # the specified outcome ("returns a value or an error"); everything else is judged by Record.check
+        ents=[e for arg in g['paths'] for e in self.fs.enumerate(run,path_clean(arg))]
+        if any(k=='ioerr' for k,_ in ents):
+            rec={'outcome':oc,'viol':None,'wit':[],'sample':None,'obl':1}
+            r0,m0=run.check_sat(z3.BoolVal(True))
+            scn={'kind':'record','fs':{p:[model_value(m0,x) for x in c] for p,c in g['fs'].items()},'links':g['links'],'paths':g['paths'],'strips':g['strips'],'algs':g['algs']}
+            if oc=='panic': rec['viol']={'kind':'panic','known_key':None,'scenario':scn,'predicted':'panic','what':'record_artifacts panics: '+str(out[1])}; return rec
+            if 'error_returned' not in self.seen and oc!='ok': self.seen.add('error_returned'); rec['wit'].append('error_returned')
+            rec['sample']={'scenario':scn,'expect':'err' if oc!='ok' else 'keys:'+','.join(sorted(need_conc(byte_list(k),'key').decode() for k,_ in deref(deref(out[1]).f[0]).e))}
+            return rec
+        rec=Record.check(self,run,out,g)
+        if rec['viol'] is None and oc!='ok' and 'error_returned' not in self.seen: self.seen.add('error_returned'); rec['wit'].append('error_returned')
         return rec
 
 class RunSequencing(Obligation):
